@@ -25,7 +25,7 @@ def guarded_check(solver, timeout_ms):
                 state["fired"] = True
                 solver.ctx.interrupt()
 
-    t = threading.Timer(timeout_ms / 1000.0 + 1.0, fire)
+    t = threading.Timer(2 * timeout_ms / 1000.0 + 10.0, fire)    # only for a solver that ignores its own timeout
     t.daemon = True
     t.start()
     try:
